@@ -141,6 +141,11 @@ impl<B: MkBuf> System for RingSys<B> {
         self.hist.clone()
     }
     fn finish(mut self, out: &mut StepOut) {
+        if self.hist.is_empty() {
+            // the observers of a freshly created buffer (every later state is checked by `apply`;
+            // for capacity 0 the initial state is the only one)
+            self.check(out);
+        }
         let b = self.buf.take();
         if let Err(p) = lib(|| drop(b)) {
             out.v("C19", "panic", format!("dropping the buffer panicked: {}", p));
@@ -276,6 +281,18 @@ impl<B: MkZBuf> System for ZstRingSys<B> {
         self.hist.clone()
     }
     fn finish(mut self, out: &mut StepOut) {
+        if self.hist.is_empty() {
+            // observers of a freshly created buffer (for capacity 0 the initial state is the only one)
+            let b = self.buf.as_ref().unwrap();
+            match lib(|| (b.len(), b.is_empty(), b.can_push(), b.capacity())) {
+                Err(p) => out.v("C19", "panic", format!("len/is_empty/can_push/capacity of a new buffer panicked: {}", p)),
+                Ok((len, empty, can, cap)) => {
+                    if len != 0 || !empty || can != (self.cap > 0) || cap != self.cap {
+                        out.v("C19", "capacity", format!("zero-sized elements: a new buffer created with capacity {} reports len()={} is_empty()={} can_push()={} capacity()={}", self.cap, len, empty, can, cap));
+                    }
+                }
+            }
+        }
         let b = self.buf.take();
         if let Err(p) = lib(|| drop(b)) {
             out.v("C19", "panic", format!("dropping the buffer panicked: {}", p));
